@@ -14,10 +14,15 @@ import (
 var crashTargets = []string{OpAdd, OpAdd, OpAddMulti, OpCompactAll, OpExpire, OpCompactRange, OpAutoCompact, OpClean, OpClose, OpReopen}
 
 // GenCrashEnum generates the base spec (no fault yet).
-func GenCrashEnum(prop string, seed uint64) *RunSpec {
+func GenCrashEnum(prop string, seed uint64) *RunSpec { return genCrashEnumWith(prop, seed, nil) }
+
+func genCrashEnumWith(prop string, seed uint64, tweak func(*Profile)) *RunSpec {
 	r := simrt.NewRng(seed, "workload")
 	p := baseProfile()
 	p.MultiSpan = true
+	if tweak != nil {
+		tweak(p)
+	}
 	g := &genCtx{r: r, p: p, timeLo: 100}
 	g.cfg = GenCfg(simrt.NewRng(seed, "config"), p)
 	g.pickNames()
